@@ -88,13 +88,14 @@ type Contracts struct {
 	Lemmas  []*Clause
 	LemmaPk map[*Clause]string
 	Files   []string
+	Scope   map[string]string // package path -> file whose imports are visible to spec/ghost/lemma declarations
 }
 
-var clauseHead = regexp.MustCompile(`^(func|iface|pure_heap|pure|inline|trusted|nopanic|requires|ensures|modifies|loop|capture|assert@|ghost|spec|global|lemma)\b`)
+var clauseHead = regexp.MustCompile(`^(scope|func|iface|pure_heap|pure|inline|trusted|nopanic|requires|ensures|modifies|loop|capture|assert@|ghost|spec|global|lemma)\b`)
 var labelRe = regexp.MustCompile(`^\[([^\]]+)\]\s*`)
 
 func parseContracts(repo string) (*Contracts, error) {
-	cs := &Contracts{ByKey: map[string]*Contract{}, LemmaPk: map[*Clause]string{}}
+	cs := &Contracts{ByKey: map[string]*Contract{}, LemmaPk: map[*Clause]string{}, Scope: map[string]string{}}
 	var files []string
 	_ = filepath.Walk(repo, func(p string, info os.FileInfo, err error) error {
 		if err != nil {
@@ -147,6 +148,8 @@ func (cs *Contracts) parseFile(file, pkgPath string) error {
 		}
 		if clauseHead.MatchString(t) || len(items) == 0 {
 			items = append(items, item{t, i + 1})
+		} else if strings.HasPrefix(items[len(items)-1].text, "spec") {
+			items[len(items)-1].text += "\n" + t
 		} else {
 			items[len(items)-1].text += " " + t
 		}
@@ -166,6 +169,8 @@ func (cs *Contracts) parseFile(file, pkgPath string) error {
 			return c
 		}
 		switch kw {
+		case "scope":
+			cs.Scope[pkgPath] = rest
 		case "func", "iface":
 			cur = &Contract{PkgPath: pkgPath, Target: strings.ReplaceAll(rest, " ", ""), IsIface: kw == "iface",
 				Loops: map[int]*LoopSpec{}, Anchors: map[*Clause]string{}, File: file, Line: it.line}
